@@ -119,11 +119,16 @@ def run_app(sc):
             s = VSock(w, [(e[0], e[1]) + ((bytes.fromhex(e[2]),) if len(e) > 2 else ()) for e in spec.get("events", [])],
                       status=spec.get("status"), tls_pending=bool(spec.get("tls")), pong_latency=spec.get("pong_latency"))
             s.spec = spec
+            if spec.get("short_body"):
+                # a rejection whose declared body is longer than what arrives before the peer closes
+                s.reject_tail = b"Content-Length: 50\r\n\r\nabc"
             real_connect = None
 
             def connect(address):
                 if spec.get("refuse"):
                     raise ConnectionRefusedError(errno.ECONNREFUSED, "Connection refused")
+                if spec.get("unreachable"):
+                    raise OSError(spec["unreachable"], "No route to host / network is unreachable")
             s.connect = connect
             socks.append(s)
             return s
@@ -216,5 +221,6 @@ def run_app(sc):
     result["max_live_ping_threads"] = max([sum(1 for n in w.order if n.startswith("ping") and not w.ctl[n]["done"])] +
                                           [0])
     result["app_sock_none"] = app.sock is None
+    result["spun"] = any(getattr(s, "spun", False) for s in socks)
     result["end_time"] = round(w.now, 6)
     return result
